@@ -407,6 +407,12 @@ func runStoreBody(sc *StoreScenario, dir string, rec *Recorder, res *RunResult) 
 				s.last = &x
 			} else if op.K != "next" {
 				s.last = nil
+			} else if w := succ(s.last); stable && w != nil {
+				// a step that failed because the previous signature of the round it reached cannot be
+				// rebuilt has moved the cursor onto that round all the same
+				if _, mustFail := expectPrev(*w); mustFail {
+					s.last = w
+				}
 			}
 			s.lastVer = model.version
 		case "close":
